@@ -26,6 +26,8 @@ type half struct {
 	wake   chan struct{}
 	closed bool // writer closed: EOF after buffer drains
 	total  int
+	window int  // > 0: a Write blocks while this many bytes are unread (the peer's receive window)
+	gone   bool // the reading end was closed (only consulted while a window is set)
 }
 
 func newHalf() *half { return &half{wake: make(chan struct{})} }
@@ -66,6 +68,9 @@ func (e *End) Read(p []byte) (int, error) {
 			}
 			n = copy(p[:n], e.r.buf)
 			e.r.buf = e.r.buf[n:]
+			if e.r.window > 0 {
+				e.r.poke() // a writer may be waiting for room
+			}
 			e.r.mu.Unlock()
 			return n, nil
 		}
@@ -99,16 +104,44 @@ func (e *End) Write(p []byte) (int, error) {
 	if closed {
 		return 0, ErrClosed
 	}
-	e.w.mu.Lock()
-	if e.w.closed {
+	for {
+		e.w.mu.Lock()
+		if e.w.closed {
+			e.w.mu.Unlock()
+			return 0, ErrClosed
+		}
+		if e.w.window > 0 && e.w.gone {
+			e.w.mu.Unlock()
+			return 0, ErrClosed
+		}
+		if e.w.window > 0 && len(e.w.buf) >= e.w.window && len(p) > 0 {
+			// the peer's window is full: block (durably, on a bubble channel) until it reads
+			wake := e.w.wake
+			e.w.mu.Unlock()
+			<-wake
+			e.mu.Lock()
+			closed := e.closedL
+			e.mu.Unlock()
+			if closed {
+				return 0, ErrClosed
+			}
+			continue
+		}
+		e.w.buf = append(e.w.buf, p...)
+		e.w.total += len(p)
+		e.w.poke()
 		e.w.mu.Unlock()
-		return 0, ErrClosed
+		return len(p), nil
 	}
-	e.w.buf = append(e.w.buf, p...)
-	e.w.total += len(p)
-	e.w.poke()
-	e.w.mu.Unlock()
-	return len(p), nil
+}
+
+// SetWindow limits how many unread bytes the PEER may have queued towards this end before its
+// Writes block (0 = unlimited): a slow reader.
+func (e *End) SetWindow(n int) {
+	e.r.mu.Lock()
+	e.r.window = n
+	e.r.poke()
+	e.r.mu.Unlock()
 }
 
 // Close closes both directions as seen from this end.
@@ -121,6 +154,7 @@ func (e *End) Close() error {
 	e.w.poke()
 	e.w.mu.Unlock()
 	e.r.mu.Lock()
+	e.r.gone = true
 	e.r.poke()
 	e.r.mu.Unlock()
 	return nil
